@@ -24,7 +24,10 @@ def _programs(ck, tier, seed):
     n_rand = 1500 if tier == "quick" else 20000
     mx = 8 if tier == "quick" else 12
     for i in range(n_rand):
-        progs.append(graphs.random_program(rng, rng.choice([3, 5, mx]), allow_bad=True))
+        if i % 5 == 4:
+            progs.append(graphs.productive_cyclic_program(rng, rng.choice([5, 7, mx])))
+        else:
+            progs.append(graphs.random_program(rng, rng.choice([3, 5, mx]), allow_bad=True))
     if tier == "thorough":
         progs += list(exhaustive_programs(4, 5))
     return progs, rng
@@ -258,6 +261,11 @@ def run(pid, tier):
     if not coq_ok:
         ck.violation("coq-obligation", "coq/Properties/%s.v no longer checks: %s" % (pid, ck.obl["log"][-300:]),
                      {"theorem": ck.obl["file"]}, found_input=False)
+    explore(ck, pid, tier)
+    return ck.finish(trusted=["model of core/node.py: coq/Graph.v (hand-written, tied by stream G)"])
+
+
+def explore(ck, pid, tier):
     progs, rng = _programs(ck, tier, ck.seed)
     cases = []
     for ops, root in progs:
@@ -314,7 +322,6 @@ def run(pid, tier):
     ck.assumptions = ["CPython recursion limit / wall clock are not modelled (fuel = recursion depth)",
                       "specification predicates wf/productive/acyclic are evaluated by the extracted model "
                       "and cross-checked against an independent Python implementation on every case"]
-    return ck.finish(trusted=["model of core/node.py: coq/Graph.v (hand-written, tied by stream G)"])
 
 
 def replay(pid, path):
